@@ -130,11 +130,22 @@ pub struct Trace {
     pub max_events: u64,
     pairs: HashSet<u64>,
     pub samples: Vec<String>,
+    pub stats_path: String,
 }
 
 impl Trace {
+    /// A constructor of the code under test panicked: nothing more can be driven.  The event has
+    /// been logged; finish the trace in an orderly way so that TLC gets to judge it.
+    pub fn end_after_fatal(&mut self) -> ! {
+        self.w.flush().unwrap();
+        let mut f = File::create(&self.stats_path).expect("create stats file");
+        writeln!(f, "{{\"events\":{},\"pairs\":{},\"samples\":[]}}", self.events, self.pairs.len()).unwrap();
+        std::process::exit(0);
+    }
+
     pub fn new(path: &str, journal: bool, max_events: u64) -> Self {
         Trace {
+            stats_path: String::new(),
             w: BufWriter::with_capacity(1 << 20, File::create(path).expect("create trace file")),
             journal,
             events: 0,
